@@ -99,6 +99,9 @@ func (w *World) ApplyEnv(ctx sdk.Context, env string) error {
 	if strings.HasPrefix(env, "init-genesis-params:") {
 		return w.applyGenesisEnv(ctx, env)
 	}
+	if strings.HasPrefix(env, "stat-update:") {
+		return w.applyStatEnv(ctx, env)
+	}
 	var msg sdk.Msg
 	switch env {
 	case "ftf-pause":
